@@ -89,7 +89,7 @@ def c16fs : FS := [
   (["u".toList, "src".toList], .dir 0o755 0),
   (["u".toList, "src".toList, "b".toList], .file 0o644 0 "other".toList)]
 
-def c16o : PackOpts := ⟨false, false, []⟩
+def c16o : PackOpts := ⟨false, false, [], []⟩
 
 /-- what packing `/t/src` gives -/
 def c16a : PState := ⟨[⟨"a".toList, tReg, 0o644, 0, [], "hi".toList⟩], ⟨["a".toList], 2⟩⟩
